@@ -260,6 +260,23 @@ func parseContracts(file string, pkgDir string) ([]*FuncSpec, error) {
 				return nil, fmt.Errorf("%s:%d: bad shape", file, ln)
 			}
 			cur.Shape[fields[1]] = n
+		case "call":
+			// call <callee> <label> (binders): expr — an assertion at every call of <callee> in this function;
+			// binders named like parameters of the callee are the actual arguments, the others locals of the caller
+			if len(fields) < 3 {
+				return nil, fmt.Errorf("%s:%d: bad call clause", file, ln)
+			}
+			callee := fields[1]
+			m := clauseRe.FindStringSubmatch(strings.TrimSpace(strings.TrimPrefix(rest, callee)))
+			if m == nil || m[2] == "" {
+				return nil, fmt.Errorf("%s:%d: call clause needs `<callee> label (binders): expr`", file, ln)
+			}
+			c := &Clause{Label: m[1], Binders: m[3], Expr: m[4]}
+			if cur.Calls == nil {
+				cur.Calls = map[string][]*Clause{}
+			}
+			cur.Calls[callee] = append(cur.Calls[callee], c)
+			lastExpr = &c.Expr
 		case "loop":
 			if len(fields) < 3 {
 				return nil, fmt.Errorf("%s:%d: bad loop clause", file, ln)
@@ -654,6 +671,17 @@ func genGhost(fset *token.FileSet, dir string, specs []*FuncSpec) ([]string, err
 			if c := ls.Decreases; c != nil {
 				c.Ghost = fmt.Sprintf("%s__dec_%s", hn, sanitize(k))
 				fmt.Fprintf(&body, "func %s(%s) int {\n\treturn %s\n}\n\n", c.Ghost, c.Binders, c.Expr)
+			}
+		}
+		var callees []string
+		for k := range sp.Calls {
+			callees = append(callees, k)
+		}
+		sort.Strings(callees)
+		for _, k := range callees {
+			for _, c := range sp.Calls[k] {
+				c.Ghost = fmt.Sprintf("%s__call_%s_%s", hn, sanitize(k), sanitize(c.Label))
+				fmt.Fprintf(&body, "func %s(%s) bool {\n\treturn %s\n}\n\n", c.Ghost, c.Binders, c.Expr)
 			}
 		}
 	}
